@@ -1,21 +1,29 @@
 import Driver.Proto
 import Driver.Server
+import Driver.Client
 open Drv
 
 /-- one input line `> op …` is answered by one output line; all other lines are ignored -/
-def stepLine (d : SrvDrv) (line : String) : SrvDrv × Option String :=
+structure AllDrv where
+  srv : SrvDrv
+  txn : Turn.Txn.St
+
+def stepLine (d : AllDrv) (line : String) : AllDrv × Option String :=
   let toks := (line.splitOn " ").filter (· ≠ "")
   match toks with
   | ">" :: rest =>
     match protoStep rest with
     | some r => (d, some r)
     | none =>
-      match srvStep d rest with
-      | some (d', r) => (d', some r)
-      | none => (d, some "bad-op")
+      match srvStep d.srv rest with
+      | some (d', r) => ({ d with srv := d' }, some r)
+      | none =>
+        match txnStep d.txn rest with
+        | some (t', r) => ({ d with txn := t' }, some r)
+        | none => (d, some "bad-op")
   | _ => (d, none)
 
-partial def loop (hin hout : IO.FS.Stream) (d : SrvDrv) : IO Unit := do
+partial def loop (hin hout : IO.FS.Stream) (d : AllDrv) : IO Unit := do
   let line ← hin.getLine
   if line.isEmpty then return ()
   let (d', r) := stepLine d (String.ofList (line.toList.filter (fun c => c != '\n' && c != '\r')))
@@ -27,5 +35,5 @@ partial def loop (hin hout : IO.FS.Stream) (d : SrvDrv) : IO Unit := do
 def main : IO Unit := do
   let hin ← IO.getStdin
   let hout ← IO.getStdout
-  loop hin hout SrvDrv.init
+  loop hin hout ⟨SrvDrv.init, ⟨0, []⟩⟩
   hout.flush
